@@ -11,6 +11,10 @@ use std::collections::HashSet;
 
 pub trait Flt: Sized {
     fn try_clone(&self) -> Option<Self>;
+    /// `Clone::clone_from` of the crate's type where it is `Clone`; false = not available
+    fn try_clone_from(&mut self, _src: &Self) -> bool {
+        false
+    }
     fn has_delete(&self) -> bool;
     fn kind(&self) -> &'static str;
     fn insert(&mut self, k: u64) -> Result<bool, ()>;
@@ -39,6 +43,10 @@ pub fn skey(k: u64) -> String {
 impl Flt for Bloom {
     fn try_clone(&self) -> Option<Self> {
         Some(self.clone())
+    }
+    fn try_clone_from(&mut self, src: &Self) -> bool {
+        self.clone_from(src);
+        true
     }
     fn has_delete(&self) -> bool {
         false
@@ -75,6 +83,10 @@ impl Flt for Bloom {
 impl Flt for Cuckoo {
     fn try_clone(&self) -> Option<Self> {
         Some(self.clone())
+    }
+    fn try_clone_from(&mut self, src: &Self) -> bool {
+        self.clone_from(src);
+        true
     }
     fn has_delete(&self) -> bool {
         true
@@ -113,6 +125,10 @@ impl Flt for Cuckoo {
 impl Flt for Qf {
     fn try_clone(&self) -> Option<Self> {
         Some(self.clone())
+    }
+    fn try_clone_from(&mut self, src: &Self) -> bool {
+        self.clone_from(src);
+        true
     }
     fn has_delete(&self) -> bool {
         false
